@@ -51,6 +51,7 @@ def main(argv):
         ctx.shard, ctx.nshards = shard, nshards
         if hasattr(wl, "setup"):
             wl.setup(ctx)
+        S.prop = prop
         cases = [only] if only is not None else range(shard, total, nshards)
         n = 0
         for g in cases:
